@@ -495,6 +495,15 @@ func (e fixEvaluator) TraceOne(ctIn *rlwe.Ciphertext, n int, opOut *rlwe.Ciphert
 	}
 }
 
+// NTTDOM control (exit): the output takes the input's flag but is moved into the NTT domain when the input is not
+func (e fixEvaluator) LeaveNTT(ctIn, opOut *rlwe.Ciphertext) {
+	*opOut.MetaData = *ctIn.MetaData
+	opOut.Value[0].CopyLvl(ctIn.Level(), ctIn.Value[0])
+	if !ctIn.IsNTT {
+		e.r.NTT(opOut.Value[0], opOut.Value[0])
+	}
+}
+
 func rnsBad(r *ring.Ring, v uint64) (rns ring.RNSScalar) {
 	rns = make(ring.RNSScalar, r.Level()+1)
 	for i := range rns {
